@@ -275,6 +275,28 @@ func runC06(c *Ctx) {
 					}
 					c.Check(cleared, "C06.P3-ttl", w.Name+" › expiry cleared when seen", st.Pos(),
 						"expiry reset in the step that marks the provider as present", "provider marked present without clearing its expiry: it is dropped at the next absence instead of after the time-to-live")
+					// …and the mark is made for every cached provider the source still reports, newer record or not: between
+					// finding the record in the write map and marking it there is no other test
+					if ex, isEx := strip(a.Args[0]).V.(*ssa.Extract); isEx && ex.Index == 0 {
+						if lk, isLk := ex.Tuple.(*ssa.Lookup); isLk && lk.CommaOk {
+							at := map[*ssa.If]bool{}
+							for _, f := range c.FactsAt(lk.Block()) {
+								at[f.If] = true
+							}
+							extra := token.NoPos
+							for _, f := range c.FactsAt(st.Block()) {
+								if f.If == nil || at[f.If] {
+									continue
+								}
+								if fx, ok := strip(f.Cond).V.(*ssa.Extract); ok && fx.Tuple == ssa.Value(lk) && fx.Index == 1 {
+									continue
+								}
+								extra = f.If.Cond.Pos()
+							}
+							c.Check(!extra.IsValid(), "C06.P3-ttl", w.Name+" › every reported provider marked present", st.Pos(),
+								"the mark follows the lookup of the cached record directly", "the 'still present' mark is made only under a further test (at "+c.pos(extra)+"): a provider the source keeps reporting unchanged counts as gone and expires after the time-to-live")
+						}
+					}
 				}
 				// expiry armed only when unset, from now + ttl
 				if a.Op == "field" && fieldOwner(a) == "cacheInfo" && a.Name == "expiresAt" && a.Args[0].Op != "complit" {
@@ -288,7 +310,7 @@ func runC06(c *Ctx) {
 			}
 		})
 	}
-	c.Floor("C06.P3-ttl", 3)
+	c.Floor("C06.P3-ttl", 4)
 	// the time-to-live in force is the one configured: config.ttl is written by the option that sets it (with its
 	// argument, as given) and by the default — nothing adjusts it afterwards — and the cache takes its ttl from it
 	nTTL := 0
@@ -704,9 +726,27 @@ func pcacheNewestWins(c *Ctx, rule string) {
 			c.OK(rule, key, st.Pos(), "replacement dominated by the true edge of new.After(record.lastUpdate)")
 			// zero time normalised: the compared time is a phi of the parsed time and a constant date, selected by IsZero
 			_, norm := Match(Op("phi", "", Any()), b["new"])
-			hasDate := b["new"].Contains(func(y *X) bool { return y.Op == "call" && nameMatches(y.Name, "time.Date") })
-			hasParse := b["new"].Contains(func(y *X) bool { return y.Op == "call" && nameMatches(y.Name, "time.Parse") })
-			usesClock := b["new"].Contains(func(y *X) bool { return y.Op == "call" && (nameMatches(y.Name, "time.Now") || nameMatches(y.Name, "time.Since")) })
+			// (the time may come from a helper that parses and normalises it: its returns are the alternatives)
+			newVals := []*X{b["new"]}
+			if hc, _ := helperCall(b["new"]); hc != nil {
+				if alts := c.RetAlts(b["new"]); len(alts) >= 2 {
+					newVals, norm = nil, true
+					for _, a := range alts {
+						newVals = append(newVals, a.Val)
+					}
+				}
+			}
+			anyHas := func(pred func(y *X) bool) bool {
+				for _, v := range newVals {
+					if v != nil && v.Contains(pred) {
+						return true
+					}
+				}
+				return false
+			}
+			hasDate := anyHas(func(y *X) bool { return y.Op == "call" && nameMatches(y.Name, "time.Date") })
+			hasParse := anyHas(func(y *X) bool { return y.Op == "call" && nameMatches(y.Name, "time.Parse") })
+			usesClock := anyHas(func(y *X) bool { return y.Op == "call" && (nameMatches(y.Name, "time.Now") || nameMatches(y.Name, "time.Since")) })
 			c.Check(!usesClock, rule, w.Name+" › compared by the advertisement's own time", st.Pos(),
 				"the time records are compared by comes from the record alone", "the time a record is compared by can be the local clock's: records are then ordered by when (and in which order) they were processed, not by their advertisement time — an older record can replace a newer one")
 			c.Check(norm && hasDate && hasParse, rule, w.Name+" › zero time normalised", st.Pos(),
@@ -723,7 +763,12 @@ func pcacheNewestWins(c *Ctx, rule string) {
 			c.Check(together, rule, w.Name+" › time stored with record", st.Pos(),
 				"record and its advertisement time are stored in the same step", "record replaced without storing the time it was compared by")
 			// the record stored is the fetched one the time was parsed from
-			src := b["new"].Find(func(y *X) bool { return y.Op == "field" && y.Name == "LastAdvertisementTime" })
+			var src *X
+			for _, v := range newVals {
+				if v != nil && src == nil {
+					src = v.Find(func(y *X) bool { return y.Op == "field" && y.Name == "LastAdvertisementTime" })
+				}
+			}
 			c.Check(src != nil && Same(src.Args[0], c.E(st.Val)), rule, w.Name+" › record matches time", st.Pos(),
 				"the record stored is the one whose advertisement time was compared", "the record stored is not the one whose time was compared")
 		})
